@@ -114,33 +114,26 @@ def rule_collect(ctx: Ctx, rule: str = "C14.collect"):
 
     rep = ctx.rep
     # sync: every selected callback's value, in order, unfiltered (comprehension or explicit append loop)
+    from ..shapes import executor_collect
+
     fn = ctx.fn("CallbacksExecutor.call")
-    shapes = []
-    for p in ctx.paths(fn, exc_edges="none", unroll=1):
-        if p.kind != "return":
-            continue
-        v = expand(p.value, p.events)
-        c = collect_from_comp(v) if isinstance(v, (ast.ListComp, ast.GeneratorExp)) else collect_from_loop(p)
-        if c is not None:
-            shapes.append(c)
+    shapes = executor_collect(ctx, fn)
     if not shapes:
         rep.unrecognised(rule, fn.loc(), "executor.call is neither a list comprehension nor an append loop over the executor")
     for c in shapes:
         ok = c.source in ("self", "self.items", "iter(self.items)") and c.value == "ELEM.call(*args, **kwargs)" and \
-            [f for f in c.filters] == [("ELEM.condition(*args, **kwargs)", True)]
+            c.filters == [("ELEM.condition(*args, **kwargs)", True)] and "wrapper" not in c.extra
         rep.check(ok, rule, fn.loc(), "executor.call returns the value of every selected callback, in order, unfiltered "
                   "(an explicit None stays in the list)", fn.key, f"{c.form}: value={c.value} filters={c.filters} over {c.source}")
     fn = ctx.fn("CallbacksExecutor.async_call")
-    for p in ctx.paths(fn, exc_edges="none"):
-        v = expand(p.value, p.events) if p.kind == "return" else None
-        ok = isinstance(v, ast.Call) and show(v.func) == "asyncio.gather" and len(v.args) == 1 and isinstance(v.args[0], ast.Starred) \
-            and not v.keywords
-        c = collect_from_comp(v.args[0].value) if ok else None
-        ok = ok and c is not None and c.source == "self" and c.value == "ELEM(*args, **kwargs)" and c.filters == [("ELEM.condition(*args, **kwargs)", True)]
-        calls = [e for e in p.calls() if show(e.term.func) == "asyncio.gather"]
-        ok = ok and bool(calls) and bool(calls[0].x.get("awaited"))
+    shapes = executor_collect(ctx, fn)
+    if not shapes:
+        rep.unrecognised(rule, fn.loc(), "executor.async_call is not gather(*<collection over the executor>)")
+    for c in shapes:
+        ok = c.source in ("self", "self.items") and c.value == "ELEM(*args, **kwargs)" and c.filters == [("ELEM.condition(*args, **kwargs)", True)] and \
+            c.extra.get("wrapper") == "asyncio.gather" and not c.extra.get("wrapper_kwargs") and c.extra.get("awaited")
         rep.check(bool(ok), rule, fn.loc(), "executor.async_call awaits gather() over every selected callback (order-preserving)",
-                  fn.key, f"return {show(v)}")
+                  fn.key, f"{c.extra.get('wrapper')}(*{c.form}): value={c.value} filters={c.filters} over {c.source} kwargs={c.extra.get('wrapper_kwargs')}")
     for meth, empty in (("call", "[]"),):
         reg = ctx.fn(f"CallbacksRegistry.{meth}")
         key = reg.params[1]
